@@ -1,6 +1,7 @@
 import math
 
 import torch
+from torch.autograd.function import once_differentiable
 
 
 class MaternCovariance(torch.autograd.Function):
@@ -48,6 +49,7 @@ class MaternCovariance(torch.autograd.Function):
         return covar_mat
 
     @staticmethod
+    @once_differentiable
     def backward(ctx, grad_output):
         d_output_d_input = ctx.saved_tensors[0]
         lengthscale_grad = grad_output * d_output_d_input
